@@ -219,9 +219,14 @@ Definition post_exec (m : mode) (t : ctree) (x : tx) : N + ctree :=
   | _ => inr t
   end.
 
+(* What the multiplexer knows of a handler: app.ExecuteTx(ctx, tx) as a transformer of
+   (gas accountant, context tree). Handler programs [p : prog] give [run p]; the handlers
+   ported in Atomic/Handlers.v give [hrun p false]. *)
+Definition handler := gasacc -> ctree -> res * gasacc * ctree.
+
 (* transaction.go:58-126 processTx. [exec m x = None]: no app serves the method
    (resolveAppForMethod, mux.go:886-907). System methods are not modelled. *)
-Definition process_tx (P : params) (exec : mode -> tx -> option prog) (m : mode)
+Definition process_tx (P : params) (exec : mode -> tx -> option handler) (m : mode)
            (t : ctree) (fa : N) (x : tx) (size : N) : res * gasacc * ctree * N :=
   let g0 := nop_gas in
   match exec m x with
@@ -239,7 +244,7 @@ Definition process_tx (P : params) (exec : mode -> tx -> option prog) (m : mode)
            && (gas_price x <? p_min_gas_price P)                              (* :92-100 *)
         then (Err E_GAS_PRICE_TOO_LOW, g2, t1, fa1)
         else
-          match run h g2 t1 with                                              (* :108-110 *)
+          match h g2 t1 with                                                  (* :108-110 *)
           | (Err e, g3, t2) => (Err e, g3, t2, fa1)
           | (Ok, g3, t2) =>
             match post_exec m t2 x with                                       (* :112-123 *)
@@ -254,7 +259,7 @@ Definition process_tx (P : params) (exec : mode -> tx -> option prog) (m : mode)
 (* mux.go:703-750 DeliverTx + transaction.go:128-150 executeTx. [dec] is the
    result of decodeTx (size check, envelope, signature, sanity check). On error
    the state is returned as the handler left it: there is no rollback here. *)
-Definition deliver (P : params) (exec : mode -> tx -> option prog) (dec : option tx) (size : N)
+Definition deliver (P : params) (exec : mode -> tx -> option handler) (dec : option tx) (size : N)
            (s : mstate) : res * gasacc * mstate :=
   match dec with
   | None => (Err E_DECODE, nop_gas, s)
@@ -266,7 +271,7 @@ Definition deliver (P : params) (exec : mode -> tx -> option prog) (dec : option
 
 (* mux.go:662-700 CheckTx: works on the check tree wrapped WITHOUT an overlay
    (state.go:197-198 NewOverlayWrapper(s.checkState)): writes go straight in. *)
-Definition check_tx (P : params) (exec : mode -> tx -> option prog) (dec : option tx) (size : N)
+Definition check_tx (P : params) (exec : mode -> tx -> option handler) (dec : option tx) (size : N)
            (s : mstate) : res * gasacc * mstate :=
   match dec with
   | None => (Err E_DECODE, nop_gas, s)
@@ -278,7 +283,7 @@ Definition check_tx (P : params) (exec : mode -> tx -> option prog) (dec : optio
 
 (* transaction.go:152-205 EstimateGas: a separate in-memory tree at the committed
    root (state.go:203-206); errors are ignored, the tree is closed (context.go:130-134). *)
-Definition estimate_gas (P : params) (exec : mode -> tx -> option prog) (x : tx) (size : N)
+Definition estimate_gas (P : params) (exec : mode -> tx -> option handler) (x : tx) (size : N)
            (s : mstate) : N * mstate :=
   match process_tx P exec Sim (mkT (t_base (m_tree s)) []) (m_feeacc s) x size with
   | (_, g, _, _) => (g_used g, s)
